@@ -178,7 +178,13 @@ def check_case(msg, suffix, res, max_parts):
     for parts in splits(msg, max_parts):
         res.evaluations += 1
         try:
-            wire = b''.join(DataSender(*parts))
+            sender = DataSender(*parts)
+            wire = b''.join(sender)
+            again = b''.join(sender)           # the same object emitted a second time (a re-send on another connection)
+            if again != wire:
+                out.append(({'side': 'sender', 'kind': 'second-emission-differs', 'msg_class': classify(msg)},
+                            'DataSender%r emitted %r the first time and %r the second time' % (parts, wire, again),
+                            {'msg': b2s(msg), 'suffix': b2s(suffix)}))
         except Exception as e:
             out.append(({'side': 'sender', 'kind': 'exception:' + type(e).__name__, 'msg_class': classify(msg)},
                         'DataSender%r raised %r' % (parts, e), {'msg': b2s(msg), 'suffix': b2s(suffix)}))
